@@ -788,6 +788,9 @@ func (p *Parser[V]) Parse(str string, idents Identifiers[V]) (ast AST, err error
 			SetComments(p.allowComments).
 			SetComfort(p.comfort).
 			Start()
+	// the tokenizer goroutine blocks until all tokens are read, so on an early
+	// return (syntax error, trailing tokens) the remaining tokens need to be consumed
+	defer tokenizer.Drain()
 
 	ast, err = p.parseLet(tokenizer, idents)
 	if err != nil {
